@@ -323,8 +323,21 @@ def run_cell(ctx, p):
         ctx.judge('table', isinstance(v, (float, np.floating)), dict(sig, kind='wrong_result_class', got=describe(v), want='float'),
                   lambda: '%s should give a float, got %s' % (what(), describe(v)))
     elif exp[0] == 'bool':
-        ctx.judge('table', is_bool_result(v, 0), dict(sig, kind='wrong_result_class', got=describe(v), want='bool'),
-                  lambda: '%s should give bool / list of bool, got %s = %s' % (what(), describe(v), core.short(v, 100)))
+        # "booleans (a list for sequences)": one bool for single values, one per value when an operand holds several
+        if 'M' in (la, lb) and L == 'Plucker':
+            # Plucker ==, !=, |, ^ are documented for single lines ("Test if two lines are ..." -> bool); what they do on an
+            # object holding several lines is not documented: recorded, not judged
+            ctx.ood('table')
+            ctx.cell('recorded', L, R, op, describe(v))
+            return
+        if 'M' in (la, lb):
+            ok = isinstance(v, list) and len(v) == 2 and all(isinstance(x, (bool, np.bool_)) for x in v)
+            want = 'list of 2 bool'
+        else:
+            ok = isinstance(v, (bool, np.bool_))
+            want = 'bool'
+        ctx.judge('table', ok, dict(sig, kind='wrong_result_class', got=describe(v), want=want),
+                  lambda: '%s should give %s, got %s = %s' % (what(), want, describe(v), core.short(v, 100)))
     ctx.cell('judged', L, R, op, la + lb)
     ctx.nontrivial(*cellkey)
 
